@@ -571,6 +571,98 @@ pub fn c03(c: &Collector, g: &mut Guard) {
     for cr in crashes {
         c.crash(format!("E1 macro worker {} ended abnormally ({}), partition {:?}", cr.child, cr.how, cr.last_part));
     }
+    // (d1) two parsers on one listener, interleaved: parser state is per parser (a scratch buffer
+    // hoisted to module scope, a static, a thread-local would leak from one into the other)
+    let mx2 = macro_alphabet_ext();
+    let crashes = fork_map(c, mx2.len(), Duration::from_secs(crate::explore::sweep_timeout_s()), |part, cc| {
+        let w1: Vec<char> = mx2[part].chars().collect();
+        let mut n = 0u64;
+        for w2 in &mx2 {
+            for cut in 1..w1.len() {
+                let (a, b): (String, String) = (w1[..cut].iter().collect(), w1[cut..].iter().collect());
+                let b = format!("{}{}", b, PROBE);
+                for utf8 in [true, false] {
+                    n += 1;
+                    // expectation: per-feed slices of two independent recognisers
+                    let mut r1 = crate::recog::Recog::new(utf8);
+                    let mut r2 = crate::recog::Recog::new(utf8);
+                    r1.feed(&a);
+                    let e1a = r1.out.clone();
+                    r2.feed(w2);
+                    let e2 = r2.out.clone();
+                    r1.out.clear();
+                    r1.feed(&b);
+                    let e1b = r1.out.clone();
+                    if r1.d8 || r2.d8 {
+                        continue;
+                    }
+                    let mut exp = e1a;
+                    exp.extend(e2);
+                    exp.extend(e1b);
+                    let obs = guarded(|| {
+                        let rec = Arc::new(Mutex::new(Rec::default()));
+                        {
+                            let mut p1 = Parser::new(rec.clone());
+                            let mut p2 = Parser::new(rec.clone());
+                            if !utf8 {
+                                p1.set_use_utf8(false);
+                                p2.set_use_utf8(false);
+                            }
+                            p1.feed(a.clone());
+                            p2.feed(w2.to_string());
+                            p1.feed(b.clone());
+                        }
+                        let ev = std::mem::take(&mut rec.lock().unwrap().ev);
+                        ev
+                    });
+                    let op = Op::Feed(vec![a.clone(), format!("<second parser> {}", w2), b.clone()], utf8);
+                    match obs {
+                        Err(m) => cc.violation(Violation {
+                            property: "C03".into(),
+                            engine: "E1.two-parsers".into(),
+                            sig: format!("two-parsers|panic:{}", crate::judge::panic_class(&m)),
+                            columns: 0,
+                            lines: 0,
+                            script: vec![],
+                            op: Some(op),
+                            detail: m,
+                            extra: json!({}),
+                        }),
+                        Ok(ev) => {
+                            let (e, o) = (normalise(&exp), normalise(&ev));
+                            if e != o {
+                                let i = e.iter().zip(o.iter()).position(|(x, y)| x != y).unwrap_or(e.len().min(o.len()));
+                                cc.violation(Violation {
+                                    property: "C03".into(),
+                                    engine: "E1.two-parsers".into(),
+                                    sig: "two-parsers|events-differ".into(),
+                                    columns: 0,
+                                    lines: 0,
+                                    script: vec![],
+                                    op: Some(op),
+                                    detail: format!(
+                                        "parser 1 fed {}, then a second parser on the same listener fed {}, then parser 1 fed {}: event #{} expected {} observed {}",
+                                        esc(&a),
+                                        esc(w2),
+                                        esc(&b),
+                                        i,
+                                        e.get(i).map(|x| x.short()).unwrap_or_else(|| "<end>".into()),
+                                        o.get(i).map(|x| x.short()).unwrap_or_else(|| "<end>".into())
+                                    ),
+                                    extra: json!({"not_replayable_by_generic_replay": true}),
+                                });
+                            }
+                        }
+                    }
+                }
+            }
+        }
+        cc.add_transitions(n);
+        cc.count("two_parser_cases", n);
+    });
+    for cr in crashes {
+        c.crash(format!("E1 two-parsers worker {} ended abnormally ({}), partition {:?}", cr.child, cr.how, cr.last_part));
+    }
     // (d2) non-ASCII characters where a final is expected (dispatch on a truncated code point)
     let mut odd: Vec<char> = (0x80u32..0x300).filter_map(char::from_u32).collect();
     for hi in [0x2000u32, 0x3000, 0xff00, 0x1f600, 0x10ff00] {
@@ -676,6 +768,7 @@ pub fn c03(c: &Collector, g: &mut Guard) {
     g.need(c, "macro_words");
     g.need(c, "long_words");
     g.need(c, "odd_final_words");
+    g.need(c, "two_parser_cases");
     let _ = word_hash;
 }
 
@@ -1264,6 +1357,90 @@ pub fn c11(c: &Collector, g: &mut Guard) {
                 }
             }
             cc.count("bom_cases", l.n);
+            // two byte parsers on one listener, interleaved: decoder state is per parser
+            let pieces: Vec<(Vec<u8>, Vec<u8>)> = vec![
+                (vec![0xe2, 0x82], vec![0xac, b'x']),
+                (vec![b'a', 0xf0, 0x9f], vec![0x98, 0x80]),
+                (vec![0xc3], vec![0xa9]),
+                (vec![0x1b, b'[', b'5'], vec![b'C', b'y']),
+            ];
+            for (a, b) in &pieces {
+                for mid in [b"q".to_vec(), vec![0xe2, 0x82], vec![0xff], vec![0xc3, 0xa9], b"\x1b[2;2H".to_vec(), vec![]] {
+                    l.n += 1;
+                    let mut exp: Vec<Op> = Vec::new();
+                    let dec = |bytes: &[u8]| -> Vec<Op> {
+                        let t = utf8ref::incomplete_tail(bytes);
+                        let s = utf8ref::decode(&bytes[..bytes.len() - t], true);
+                        recognise(&s, true).0
+                    };
+                    // parser 1 sees a ++ b, parser 2 sees mid; events in feed order
+                    let e1a = dec(a);
+                    let mut whole = a.clone();
+                    whole.extend_from_slice(b);
+                    let e1 = dec(&whole);
+                    exp.extend(e1a.clone());
+                    exp.extend(dec(&mid));
+                    // what parser 1 adds in its second feed = e1 minus what it had delivered already
+                    let mut rec = crate::recog::Recog::new(true);
+                    let ta = utf8ref::incomplete_tail(a);
+                    rec.feed(&utf8ref::decode(&a[..a.len() - ta], true));
+                    rec.out.clear();
+                    let tw = utf8ref::incomplete_tail(&whole);
+                    rec.feed(&utf8ref::decode(&whole[a.len() - ta..whole.len() - tw], true));
+                    exp.extend(rec.out.clone());
+                    let _ = e1;
+                    let obs = guarded(|| {
+                        let rec = Arc::new(Mutex::new(Rec::default()));
+                        {
+                            let mut p1 = ByteParser::new(rec.clone());
+                            let mut p2 = ByteParser::new(rec.clone());
+                            p1.feed(a);
+                            p2.feed(&mid);
+                            p1.feed(b);
+                        }
+                        let ev = std::mem::take(&mut rec.lock().unwrap().ev);
+                        ev
+                    });
+                    let op = Op::FeedBytes(vec![a.clone(), mid.clone(), b.clone()], true);
+                    match obs {
+                        Err(m) => cc.violation(Violation {
+                            property: "C11".into(),
+                            engine: "E3.two-parsers".into(),
+                            sig: format!("two-parsers|panic:{}", crate::judge::panic_class(&m)),
+                            columns: 0,
+                            lines: 0,
+                            script: vec![],
+                            op: Some(op),
+                            detail: m,
+                            extra: json!({}),
+                        }),
+                        Ok(ev) => {
+                            let (e, o) = (normalise(&exp), normalise(&ev));
+                            if !events_match(&e, &o) {
+                                cc.violation(Violation {
+                                    property: "C11".into(),
+                                    engine: "E3.two-parsers".into(),
+                                    sig: "two-parsers|decoding-differs".into(),
+                                    columns: 0,
+                                    lines: 0,
+                                    script: vec![],
+                                    op: Some(op),
+                                    detail: format!(
+                                        "byte parser 1 fed {}, a second byte parser on the same listener fed {}, parser 1 fed {}: expected {:?} observed {:?}",
+                                        hex(a),
+                                        hex(&mid),
+                                        hex(b),
+                                        e.iter().map(|x| x.short()).collect::<Vec<_>>(),
+                                        o.iter().map(|x| x.short()).collect::<Vec<_>>()
+                                    ),
+                                    extra: json!({"chunks": "[parser1, parser2, parser1]"}),
+                                });
+                            }
+                        }
+                    }
+                }
+            }
+            cc.count("two_parser_cases", 24);
         }
         cc.add_transitions(l.n);
         cc.count("cases", l.n);
